@@ -1,0 +1,8 @@
+//go:build verif
+
+package soyhtml
+
+import "io"
+
+// VerifHTMLEscape exposes htmlEscapeString to the verification harness.
+func VerifHTMLEscape(w io.Writer, s string) { htmlEscapeString(w, s) }
